@@ -109,7 +109,7 @@ fn gen(rng: &mut Rng, tier: Tier) -> Vec<Case> {
 pub fn prop() -> PropDef {
     PropDef {
         id: "C17",
-        rule: "corpus, then boundary-directed histories (0-8 intervals, coordinates 0..25, inserts/merges/set_cov) with 1-8 queries of non-decreasing start drawn from {e-1,e,e+1} ∪ {0} and far beyond the last interval, with repeats; then random histories (2-130 intervals, optional huge interval over many small ones, equal starts with growing stops, offsets up to u64::MAX-1e5) with 2-40 ascending queries through ONE cursor starting at 0. Non-trivial: >= 2 stored intervals and >= 2 queries. Distinct = distinct input token sequence.",
+        rule: "corpus, then boundary-directed histories (0-8 intervals, coordinates 0..25, inserts/merges/set_cov) with 1-8 queries of non-decreasing start drawn from {e-1,e,e+1} ∪ {0} and far beyond the last interval, with repeats; then random histories (2-130 intervals, optional huge interval over many small ones, equal starts with growing stops, offsets up to u64::MAX-1e5) with 2-40 ascending queries through ONE cursor starting at 0. Non-trivial: >= 2 stored intervals and >= 2 queries. Thorough adds the exhaustive small scope: every sequence of <= 2 intervals over 0..=3 in several histories with every ascending-start sequence of <= 3 queries. Distinct = distinct input token sequence.",
         observable: "per query: Lapper::seek (carried cursor) and Lapper::find results as sorted multisets, or panic",
         gen, exec, shrink, child: None,
     }
